@@ -251,7 +251,7 @@ def main():
             add_only=True),
         engines=ENGINES,
         checks=checks,
-        notes="Runtime monitoring and sanitizers only; see DESIGN.md. Known findings: known_findings.json.",
+        notes="Runtime monitoring and sanitizers only; see DESIGN.md. Known findings (open and fixed): known_findings.json and known_findings.d/*.json; seeded changes and what catches them: seeded/ and DESIGN.md section 8.",
         not_applicable=na)
     with open(os.path.join(VERIF, "MANIFEST.json"), "w") as f:
         json.dump(man, f, indent=1)
